@@ -42,6 +42,19 @@ strengthened.update({
  "C20-E":"c20_batch: iterators ranged repeatedly, after break, nested and interleaved",
 })
 
+strengthened.update({
+ "C03-G":"mkseq: long lines nesting 126..394 outstanding makes (across the 128/256/384 marks of the hash-history buffer); a panic inside a generator emits the case in flight",
+ "C13-G":"c13: bulk stdin family (batches of commands in one write, 4..30 kB queued, 2 kB / 6 kB position lines)",
+ "C14-G":"new stream c14arm (real driver under testing/synctest virtual time: when the stop channel closes; mock search walks the tree in place; paired runs differing only in the opponent's clock)",
+ "C14-H":"c14arm (traffic of isready / debug lines during the search)",
+ "C15-H":"c15: re-store family (same key again with one or two fields changed, then a probe; a fifth of the stores at depth 0)",
+ "C16-G":"posgen.Heavy (4..9 queens, 80..218 pseudo-legal moves) in the shared position stream and in c16p",
+ "C06-G":"search request streams: a far time limit among the limits; roots final by rule with a single legal reply",
+ "C06-H":"search request streams: previous search on ANOTHER root, then stop closed before the start / tiny budgets",
+ "C19-H":"c19env: tuner-side evaluation on a coefficient object with the tuner's life cycle (zero value, Eval, SetVector, nudge and restore through TunedParams)",
+ "C20-G":"new stream c20_huge (generated files of 9..40 MiB, a line starting on every 1 MiB boundary)",
+})
+
 def describe(v):
     fr = v.get("first_replay", {})
     if fr.get("kind") == "witness":
